@@ -35,6 +35,9 @@ type CaseB struct {
 	Session []int `json:"session,omitempty"`
 	// how the burst tasks are issued (absent = bare queued sleep jobs, as before): viaB
 	Via string `json:"via,omitempty"`
+	// the reply of one of the hand-out check-ins of the bursting agent (Step counts them, cyclic) does not
+	// reach the agent: Dep reply / socket of fault_test.go
+	Fault *FaultE `json:"fault,omitempty"`
 }
 
 // viaB: the ways the tasks of a burst are issued and ended.
@@ -81,6 +84,12 @@ func genB(t *rapid.T) CaseB {
 		c.Session = append(c.Session, agentfx.Weighted(t, "session", 3, 2, 2, 1, 1))
 	}
 	c.Via = viaB[agentfx.Weighted(t, "via", 4, 1, 1, 2)]
+	if agentfx.Weighted(t, "fault", 3, 1) == 1 {
+		dep := []string{"reply", "socket"}[agentfx.Bits(t, "fault-dep", 1)]
+		hows := faultHows[dep]
+		c.Fault = &FaultE{Dep: dep, How: hows[agentfx.Bits(t, "fault-how", 3)%len(hows)], Phase: "drain",
+			Step: rapid.IntRange(0, 7).Draw(t, "fault-step"), K: rapid.IntRange(0, 1<<16).Draw(t, "fault-k")}
+	}
 	return c
 }
 
@@ -221,6 +230,19 @@ func expandB(c CaseB) CaseE {
 	}
 	burst(c.N, c.Groups, c.Keep)
 	burst(c.M, 1, c.Keep2)
+	if c.Fault != nil {
+		var hand []int
+		for i, op := range e.Ops {
+			if op.Kind == "handout" && op.Agent == target {
+				hand = append(hand, i)
+			}
+		}
+		if len(hand) > 0 {
+			f := *c.Fault
+			f.Step, f.Phase = hand[f.Step%len(hand)], "drain"
+			e.Fault = &f
+		}
+	}
 	return e
 }
 
@@ -260,7 +282,7 @@ func classifyB(c CaseB) core.Class {
 func TestC05b(t *testing.T) {
 	core.Run(t, core.Spec[CaseB]{
 		Property: "C05", Sub: "b",
-		Rule: "burst and drain on one agent (directly connected, or an SMB child reached through its parent; another agent holds one outstanding task): N tasks with N from {1-4, 7-9, 15-20, 30-40, 60-70, 120-140} are issued in 1-3 groups, each handed out; they are completed by their final callback in fifo / lifo / random order down to 0, 1 or 3 survivors; after every completion (N <= 9) or at about 3/4, 1/2, 1/4, 1/8 of the burst and at 2, 1, 0 outstanding, first (per level, generated) a session-level message of the bursting agent - DEMON_INIT again with the same / another key, SMB re-connect for a child, plain check-in, COMMAND_CHECKIN callback - then nine probes run: request id 0, a completed id, a never-issued id, the other agent's outstanding id - each with a final (sleep) and a non-final (output) kind - and a still outstanding id with the non-final kind; then a second burst of 1-40 tasks on the same agent, drained and probed the same way. The tasks of both bursts are issued in one of four generated ways (label burst-issued-via): bare queued sleep jobs ended by the sleep callback (4/8); the operator path (TaskPrepare) for sleep (1/8); operator-path inline execute without (1/8) or with (2/8) HasCallback - two mem-file chunk tasks per task stay outstanding alongside, with HasCallback the teamserver's BofCallbacks list grows to N entries and shrinks with the drain - each task ended by one of ran-ok / could-not-run / exception / symbol-not-found (generated per task). Expanded into a history of sub-check (a) and judged by the same oracle. Every case is non-trivial; distinct = (burst bucket, second-burst bucket, order, direct/child)",
+		Rule: "burst and drain on one agent (directly connected, or an SMB child reached through its parent; another agent holds one outstanding task): N tasks with N from {1-4, 7-9, 15-20, 30-40, 60-70, 120-140} are issued in 1-3 groups, each handed out; they are completed by their final callback in fifo / lifo / random order down to 0, 1 or 3 survivors; after every completion (N <= 9) or at about 3/4, 1/2, 1/4, 1/8 of the burst and at 2, 1, 0 outstanding, first (per level, generated) a session-level message of the bursting agent - DEMON_INIT again with the same / another key, SMB re-connect for a child, plain check-in, COMMAND_CHECKIN callback - then nine probes run: request id 0, a completed id, a never-issued id, the other agent's outstanding id - each with a final (sleep) and a non-final (output) kind - and a still outstanding id with the non-final kind; then a second burst of 1-40 tasks on the same agent, drained and probed the same way. The tasks of both bursts are issued in one of four generated ways (label burst-issued-via): bare queued sleep jobs ended by the sleep callback (4/8); the operator path (TaskPrepare) for sleep (1/8); operator-path inline execute without (1/8) or with (2/8) HasCallback - two mem-file chunk tasks per task stay outstanding alongside, with HasCallback the teamserver's BofCallbacks list grows to N entries and shrinks with the drain - each task ended by one of ran-ok / could-not-run / exception / symbol-not-found (generated per task). In 1/4 of the cases the reply of one generated hand-out check-in of the bursting agent (any group of either burst) does not reach the agent - the fixture's response writer fails with ECONNRESET / EPIPE after 0 or k bytes, or the request goes over a real loopback connection that the peer resets / closes before the reply is written (labels fault:socket:reply-write:<how>@hand-out-with-tasks; see (a)); the model keeps every task of that reply outstanding, the drain and the probes go on as usual. Expanded into a history of sub-check (a) and judged by the same oracle. Every case is non-trivial; distinct = (burst bucket, second-burst bucket, order, direct/child)",
 		Gen:  genB, Check: checkB, Classify: classifyB,
 		Assumptions: []string{"same model and oracle as (a); whether a still outstanding id is accepted is counted (labels accepted-with-effect / accepted-without-effect), not asserted: the statement is an only-if"},
 	})
